@@ -894,6 +894,9 @@ def http_error_init(v):
 class JsonH:
     """A media handler (BaseHandler): an opaque encoder that records what it is given."""
 
+    def __pyvc_truth__(self):
+        return True  # an ordinary object (no __bool__/__len__): always true, as for the real class
+
     def __init__(self, v, name='custom'):
         self.v = v
         self.name = name
